@@ -123,6 +123,30 @@ Section Frame.
     destruct (Z.eqb st 2), (pi_before_start i), (Z.eqb st 3), (Z.eqb (pi_index i) (pi_ntimes i));
       cbn in Ho; cbn; intuition (subst; cbn; auto).
   Qed.
+
+  (* a bookkeeping field holds, afterwards, what the tracking part assigned to it last — or what it
+     held before when that part does not name it; [st] is the ptState the block held before the call *)
+  Lemma ps_update_track_gen i b b' st gs m g : length b = size -> bytes b -> ps_update t e i b = Some b' ->
+    find_field t "ptState" = Some gs -> is_view gs = false -> get_int t "ptState" b = Some st ->
+    find_field t m = Some g -> is_view g = false ->
+    ~ In m (map fst (ps_head_ops i)) ->
+    getn t m b' = match last_assign (ps_track_ops i st) m with
+                  | Some v => stored e g v
+                  | None => getn t m b
+                  end.
+  Proof.
+    intros Hl Hb H Hgs Hvs Hst Hm Hv Hnh. unfold ps_update in H.
+    apply bind_some in H as (b1 & H1 & H). apply bind_some in H as (st1 & Hst1 & H2).
+    destruct (seq_sets_get size t Hok e _ b b1 "ptState" gs Hl Hb H1 Hgs Hvs) as [[Hl1 Hb1] G0].
+    change (last_assign (ps_head_ops i) "ptState") with (@None value) in G0.
+    assert (st1 = st) as ->.
+    { unfold get_int in Hst1, Hst. rewrite G0 in Hst1. rewrite Hst in Hst1. congruence. }
+    destruct (seq_sets_get size t Hok e _ b b1 m g Hl Hb H1 Hm Hv) as [_ G1].
+    destruct (seq_sets_get size t Hok e _ b1 b' m g Hl1 Hb1 H2 Hm Hv) as [_ G2].
+    rewrite last_assign_none in G1.
+    - rewrite G2. destruct (last_assign (ps_track_ops i st) m); [reflexivity|exact G1].
+    - intros op Ho E. apply Hnh. rewrite <- E. apply in_map, Ho.
+  Qed.
 End Frame.
 
 (* ---------- the generated pointing table ---------- *)
@@ -172,4 +196,94 @@ Proof.
                                    cbn; intuition discriminate]
            end
        end.
+Qed.
+
+(* the table bookkeeping after update_status, by the tracking state the block held before the call:
+   idle / loaded / finished states keep the four fields; a running track (state 3) publishes the
+   lookup index, the remaining length and the last index, or, when the table is exhausted, state 4
+   and zeros *)
+Theorem ps_update_tracking i b b' st : length b = AlayLayout.ps_size -> bytes b ->
+  ps_update AlayLayout.ps_table AlayLayout.env_default i b = Some b' ->
+  get_int AlayLayout.ps_table "ptState" b = Some st ->
+  let T := AlayLayout.ps_table in
+  (st <> 2 -> st <> 3 ->
+     getn T "ptState" b' = getn T "ptState" b /\ getn T "ptActTableIndex" b' = getn T "ptActTableIndex" b /\
+     getn T "ptTableLength" b' = getn T "ptTableLength" b /\ getn T "ptEndTableIndex" b' = getn T "ptEndTableIndex" b) /\
+  (st = 2 -> pi_before_start i = true ->
+     getn T "ptState" b' = getn T "ptState" b /\ getn T "ptActTableIndex" b' = getn T "ptActTableIndex" b /\
+     getn T "ptTableLength" b' = getn T "ptTableLength" b /\ getn T "ptEndTableIndex" b' = getn T "ptEndTableIndex" b) /\
+  (st = 3 \/ (st = 2 /\ pi_before_start i = false) -> pi_index i <> pi_ntimes i ->
+     getn T "ptState" b' = Some (VInt 3) /\
+     getn T "ptActTableIndex" b' = Some (VInt (pi_index i)) /\
+     getn T "ptTableLength" b' = Some (VInt (pi_ntimes i - pi_index i)) /\
+     getn T "ptEndTableIndex" b' = Some (VInt (Z.max (pi_ntimes i - pi_index i - 1) 0))) /\
+  (st = 3 \/ (st = 2 /\ pi_before_start i = false) -> pi_index i = pi_ntimes i ->
+     getn T "ptState" b' = Some (VInt 4) /\ getn T "ptActTableIndex" b' = Some (VInt 0) /\
+     getn T "ptTableLength" b' = Some (VInt 0) /\ getn T "ptEndTableIndex" b' = Some (VInt 0)).
+Proof.
+  intros Hl Hb H Hst T.
+  assert (G : forall m g, find_field T m = Some g -> is_view g = false ->
+            ~ In m (map fst (ps_head_ops i)) ->
+            getn T m b' = match last_assign (ps_track_ops i st) m with
+                          | Some v => stored AlayLayout.env_default g v
+                          | None => getn T m b
+                          end).
+  { intros m g. eapply (ps_update_track_gen _ _ ps_ok _ i b b' st _ m g Hl Hb H); try exact Hst.
+    - vm_compute. reflexivity.
+    - reflexivity. }
+  assert (Hsame : get_int T "ptState" b = Some st -> getn T "ptState" b = Some (VInt st)).
+  { unfold get_int. destruct (getn T "ptState" b) as [[| z | | | | |]|]; try discriminate. congruence. }
+  specialize (Hsame Hst).
+  assert (F : forall m, In m ["ptState"; "ptActTableIndex"; "ptTableLength"; "ptEndTableIndex"] ->
+            exists g, find_field T m = Some g /\ is_view g = false /\ ~ In m (map fst (ps_head_ops i)) /\
+                      forall z, stored AlayLayout.env_default g (VInt z) = Some (VInt z)).
+  { intros m Hm. cbn in Hm.
+    destruct Hm as [<-|[<-|[<-|[<-|[]]]]]; eexists; (split; [vm_compute; reflexivity|]);
+      (split; [reflexivity|]); (split; [cbn; intuition discriminate|]); intros z; reflexivity. }
+  assert (R : forall m, In m ["ptState"; "ptActTableIndex"; "ptTableLength"; "ptEndTableIndex"] ->
+            getn T m b' = match last_assign (ps_track_ops i st) m with
+                          | Some (VInt z) => Some (VInt z)
+                          | Some _ => getn T m b'
+                          | None => getn T m b
+                          end).
+  { intros m Hm. destruct (F m Hm) as (g & Hf & Hv & Hn & Hs). rewrite (G m g Hf Hv Hn).
+    destruct (last_assign (ps_track_ops i st) m) as [[| z | | | | |]|] eqn:E; try reflexivity; try apply Hs;
+      symmetry; rewrite (G m g Hf Hv Hn), E; reflexivity. }
+  assert (I4 : forall m, m = "ptState" \/ m = "ptActTableIndex" \/ m = "ptTableLength" \/ m = "ptEndTableIndex" ->
+            In m ["ptState"; "ptActTableIndex"; "ptTableLength"; "ptEndTableIndex"]) by (cbn; intuition).
+  split; [|split; [|split]].
+  - intros N2 N3. unfold ps_track_ops in R.
+    replace (Z.eqb st 2) with false in R by lia. replace (Z.eqb st 3) with false in R by lia.
+    repeat split; apply R, I4; auto.
+  - intros -> Hbs. unfold ps_track_ops in R. rewrite Hbs in R. cbn [Z.eqb Pos.eqb] in R.
+    repeat split; apply R, I4; auto.
+  - intros Hc Hne. unfold ps_track_ops, ps_running_ops in R.
+    replace (Z.eqb (pi_index i) (pi_ntimes i)) with false in R by lia.
+    destruct Hc as [->|[-> Hbs]]; [|rewrite Hbs in R]; cbn [Z.eqb Pos.eqb] in R;
+      repeat split;
+      match goal with |- getn _ ?m _ = _ => rewrite (R m); [|apply I4; auto] end;
+      first [reflexivity|exact Hsame].
+  - intros Hc He. unfold ps_track_ops, ps_running_ops in R.
+    replace (Z.eqb (pi_index i) (pi_ntimes i)) with true in R by lia.
+    destruct Hc as [->|[-> Hbs]]; [|rewrite Hbs in R]; cbn [Z.eqb Pos.eqb] in R;
+      repeat split;
+      match goal with |- getn _ ?m _ = _ => rewrite (R m); [|apply I4; auto] end;
+      reflexivity.
+Qed.
+
+(* the published ACU time is the clock's MJD (a binary64 pattern) *)
+Theorem ps_update_mirrors_time i b b' : length b = AlayLayout.ps_size -> bytes b ->
+  0 <= pi_mjd i < 2 ^ 64 ->
+  ps_update AlayLayout.ps_table AlayLayout.env_default i b = Some b' ->
+  getn AlayLayout.ps_table "actTime" b' = Some (VReal (pi_mjd i)).
+Proof.
+  intros Hl Hb Hr H.
+  let f := eval vm_compute in (find_field AlayLayout.ps_table "actTime") in
+  match f with
+  | Some ?g =>
+      rewrite (ps_update_head_gen _ _ ps_ok _ i b b' "actTime" g (VReal (pi_mjd i)) Hl Hb H);
+        [|vm_compute; reflexivity|reflexivity|reflexivity|cbn; intuition discriminate]
+  end.
+  unfold stored. cbn [fkind as_f64 option_map]. unfold fits.
+  destruct (Z.leb_spec 0 (pi_mjd i)); [|lia]. destruct (Z.ltb_spec (pi_mjd i) (2 ^ 64)); [|lia]. reflexivity.
 Qed.
